@@ -942,6 +942,11 @@ func (rt *Rt) MkHook(s HookSpec) zerolog.Hook {
 		return zerolog.HookFunc(h.Run)
 	case "level":
 		return zerolog.LevelHook{NoLevelHook: h, TraceHook: h, DebugHook: h, InfoHook: h, WarnHook: h, ErrorHook: h, FatalHook: h, PanicHook: h}
+	case "levelsome":
+		// only some slots filled: the others (and levels without a slot) run nothing
+		lh := zerolog.NewLevelHook()
+		lh.InfoHook, lh.ErrorHook, lh.NoLevelHook = h, h, h
+		return lh
 	}
 	return h
 }
